@@ -260,7 +260,14 @@ CONDS = ['principal == resource', '1 < 2', '1 <= 2', '2 > 1', '2 >= 1', '1 != 2'
          'principal is User in Group::"g"', 'if 1 < 2 then 3 == 4 else 5 == 6', 'true && false', 'true || false', '{a: 1, "b c": 2}.a == 1', '[1, 2, 3] == [3]', 'ip("1.2.3.4").isLoopback()', 'decimal("1.0").lessThan(decimal("2.0"))',
          'context.x - 1 - 2 == 0', '1 - (2 - 3) == 0', '(1 + 2) * 3 == 9', 'principal.a < principal.b && principal.c <= principal.d', '[principal.a - principal.b, principal.b - principal.a].contains(0)',
          '(if principal.a then principal.b else principal.c) == principal.d', 'principal.b.contains(principal.a) && !principal.a.contains(principal.b)', 'principal.a.containsAll(principal.b) != principal.b.containsAll(principal.a)',
-         'principal.a.containsAny(principal.b) || principal.a in principal.b', 'principal.a.getTag(principal.b) == principal.b.hasTag(principal.a)']
+         'principal.a.containsAny(principal.b) || principal.a in principal.b', 'principal.a.getTag(principal.b) == principal.b.hasTag(principal.a)',
+         # nestings whose printed form needs (or must not drop) parentheses: a policy built from JSON / PST prints through the EST printer
+         '1 * (2 * 3) == 6', '(1 * 2) * 3 == 6', '1 + (2 + 3) == 6', '1 - (2 + 3) == 0', '1 + (2 - 3) == 0', '(1 - 2) * 3 == 0', '1 - 2 * 3 == 0', '-(-1) == 1', '-(1 + 2) == 0', '-(1 * 2) == 0', '!(!true)', '!(true && false)', '!(1 < 2) == false',
+         '(1 < 2) == true', 'true && (false || true)', '(true && false) || true', '(true || false) && true', 'true || (false && true)', '(if true then 1 else 2) + 3 == 4', 'if true then 1 == 2 else (if false then true else false)',
+         '(if true then principal else resource).a', '[1, 2].contains(1 + 2)', '(principal.a).b == 1', 'principal has a && principal.a has b', '!(principal has a)', '(principal has a) == true', '(principal like "a") == true',
+         '!(principal like "a")', '(principal is User) == true', '!(principal is User)', '(principal in resource) == true', '!(principal in resource)', '(1 + 2).isEmpty()', '(-1).isEmpty()', '{a: 1 + 2}.a * 3 == 9',
+         '(principal.a + 1) * (principal.b - 1) == 0', 'principal.a * principal.b * principal.c == 0', 'principal.a * (principal.b * principal.c) == 0', 'principal.a - (principal.b - principal.c) == 0',
+         '(principal == resource) != (principal in resource)', '(1 == 2) == (3 == 4)', '[(1 + 2) * 3].contains(9)']
 
 
 POLICIES = ['@a("x") @b("") @c permit(principal, action, resource);', 'forbid(principal == User::"a", action == Action::"x", resource == Photo::"p") unless { 1 < 2 };',
@@ -281,6 +288,9 @@ def battery_replay(ctx, name, role, why, fmt='EST'):
                 return ctx.mismatch(name, f'est_roundtrip probe `{cnd}`: {a}')
             if not a['equal']:
                 cache['result'] = (f'`{cnd}` becomes `{a.get("back")}` after policy -> {fmt} -> policy', {'op': 'est_roundtrip', 'policy': cnd, 'format': fmt})
+                break
+            if a.get('printed_equal') is False:
+                cache['result'] = (f'`{cnd}` rebuilt from its {fmt} form prints as `{a.get("back")}`, which does not parse back to the same policy', {'op': 'est_roundtrip', 'policy': cnd, 'format': fmt})
                 break
     r = cache['result']
     if r:
